@@ -423,8 +423,9 @@ def plan(tier, seed):
     nparts = 8 if thorough else 4
     for part in range(nparts):
       T.append(Task('ecdsa-batch-sizes', 'ecdsa_sizes',
-                    {'check': nm, 'cid': rot[(seed + part) % 9] if thorough or (
-                         part and nm != 'CheckCr50U2f') else 2,
+                    {'check': nm, 'cid': (2, 6)[part % 2 if thorough else 0]
+                     if nm == 'CheckCr50U2f' else (  # U2F: 256-bit curves (very slow elsewhere)
+                         rot[(seed + part) % 9] if thorough or part else 2),
                      'sizes': szs[part::nparts], 'layouts': layouts},
                     bound='every number 0..50 of distinct signatures per issuer and the values '
                     'around multiples of 24 (window sizes 24/48/120 of the nonce checks; up to '
